@@ -478,7 +478,7 @@ for n_out in (1, 2):
 # it.  The constructor must classify the output accordingly: every escape-emitting path (sections, progress bars)
 # asks supports_ansi(), i.e. this flag.
 R.contract(
-    M_OUT + ":Output.__init__",
+    M_OUT + ":Output.__init__", variant="classify",  # (a named case: callers keep executing the constructor itself)
     params={"stream": "ref OutputStream", "formatter": "ref Formatter"},
     ensures=[
         "self._stream is stream and self._formatter is formatter",
@@ -492,4 +492,4 @@ R.contract(
               "self._section_outputs", "self._supports_utf8", "self._indent"],
     note="(the formatter=None default builds a NullFormatter: not part of this case)",
 )
-OUTPUT_INIT = M_OUT + ":Output.__init__"
+OUTPUT_INIT = {"qual": M_OUT + ":Output.__init__", "tag": "classify"}
